@@ -76,6 +76,10 @@ func VerifC17Retry() {
 	flushMaxNum := 1 + verifChoice("flushmaxnum", 3)
 	r := verifGrafanaNet(concurrency, 4, flushMaxNum, false)
 	verifSettle()
+	if verifBool("idle") {
+		// a whole flush interval without traffic before the first line: the flush timer must still work afterwards (C17h)
+		verifFireTimers("grafananet.go")
+	}
 	names := []string{"a.x", "b.y", "a.x"}
 	n := 1 + verifChoice("n", 3)
 	verifHTTPMaxFailures(verifParamInt("maxfail", 2))
